@@ -88,6 +88,18 @@ partial def go (steps : List String) (res : List String) (k : Nat) (pool : List 
       let D ← newDump
       let ok ← getE (isIsectW D A B FUEL) "fuel"
       if !ok then f := f ++ [s!"violation step {k} isect-language"]
+      -- the L2 model (`nfaProd_cert`, `nfaIsect_lang`): the product on the pairs reachable from the start pairs under the
+      -- reported numbering, followed by the removal of useless states; the reported map must satisfy the certificate
+      -- (start pairs inside, closed under joint transitions, injective) and the result must be exactly that automaton
+      match (kv res s!"m{k}") >>= parsePairMap? with
+      | some pm =>
+        let dom := pm.map (·.1)
+        let mf := fun p => (pm.lookup p).getD 0
+        if ok && !(Vata.nfaProdCertB A B dom mf) then
+          f := f ++ [s!"mismatch step {k} the reported product map is not a closed injective numbering of the reachable pairs: {dom}"]
+        else if ok && !nfaEq D (Vata.nfaRemoveUseless (Vata.nfaProdOn A B dom mf)) then
+          f := f ++ [s!"mismatch step {k} isect-model: implementation {showNfa D} model {showNfa (Vata.nfaRemoveUseless (Vata.nfaProdOn A B dom mf))}"]
+      | none => pure ()
       let e ← getE (emptyW D FUEL) "fuel"
       tags := tags ++ [s!"isectempty={bchar e}"]
       pool' := pool ++ [some D]
